@@ -471,3 +471,206 @@ def plan_ops(seed, tier, metrics_bias=False):
 
 SCENARIOS["ops-session"] = lambda seed, tier: plan_ops(seed, tier, False)
 SCENARIOS["metrics-session"] = lambda seed, tier: plan_ops(seed, tier, True)
+
+
+# =========================================================================== peers (C04, C09)
+
+import os   # noqa: E402
+import re   # noqa: E402
+
+from . import peers   # noqa: E402
+
+UVL_FACETS = ["names", "tree", "abstract", "type", "fcard", "attrs", "ctc_count", "ctc_equiv"]
+
+
+def _b64(text):
+    data = text if isinstance(text, bytes) else text.encode("utf-8")
+    return base64.b64encode(data).decode()
+
+
+def plan_uvl_peer(seed, tier):
+    """C04: an independent UVL emitter writes documents onto the faulty disk; the real
+    UVLReader reads them.  Positive half: the model the document denotes.  Negative half:
+    documents made invalid by construction, by a tear inside a token or by media corruption."""
+    b = Builder(seed, "uvl-peer", tier)
+    rng = b.rng
+    buggify = rng.random() < 0.6
+    faulty = rng.random() < 0.5
+    b.plan["faulty"] = faulty
+    for _s in range(rng.choice([1, 1, 2])):
+        b.segment(env=_seg_env(rng), disk_cfg=b.disk_cfg(buggify), cwd=rng.choice(DIRS))
+        pool = gen.name_pool(rng, "uvl", rng.randint(6, 14))
+        for _d in range(rng.randint(3, 9 if tier == "quick" else 25)):
+            cfg = gen.default_cfg(rng, "uvl", tier)
+            cfg["nonascii_values"] = rng.random() < 0.2
+            cfg["p_attr"] = rng.choice([0.0, 0.3, 0.7])
+            ref = gen.gen_model(rng, "uvl", pool, cfg)
+            text, info = peers.emit_uvl(ref, rng)
+            path = b.path("uvl")
+            tags = ["peer.uvl"] + ["surface." + c for c in info["choices"]]
+            k = rng.random()
+            if k < 0.55:
+                b.op(op="PUT", path=path, fmt="uvl", b64=_b64(text), prop="C04", tags=tags,
+                     expect={"kind": "model", "ref": rm.project("uvl", ref),
+                             "facets": UVL_FACETS})
+                rop = {"op": "READ", "fmt": "uvl", "path": path,
+                       "pathstyle": rng.choice(["abs", "rel"])}
+                if faulty and rng.random() < 0.15:
+                    rop["fault"] = b.read_fault()
+                b.op(**rop)
+            elif k < 0.9:
+                neg = peers.uvl_negative(text, rng)
+                if neg is None:
+                    continue
+                bad, why = neg
+                b.op(op="PUT", path=path, fmt="uvl", b64=_b64(bad), prop="C04",
+                     tags=tags + ["invalid." + why], expect={"kind": "raise", "why": why})
+                b.op(op="READ", fmt="uvl", path=path, pathstyle=rng.choice(["abs", "rel"]))
+            else:
+                # media damage: whatever comes back must be an error or a well-formed model
+                b.op(op="PUT", path=path, fmt="uvl", b64=_b64(text), prop="C04", tags=tags,
+                     expect={"kind": "any"})
+                b.op(op="CORRUPT", path=path, fmt="uvl", frac=rng.random(),
+                     kind=rng.choice(["bitflip", "subst", "zero_sector", "dup_sector",
+                                      "drop_sector", "truncate"]),
+                     bit=rng.randint(0, 7), byte=rng.choice([0x24, 0, 0xff, 0x7b, 0x22]),
+                     sector=rng.choice([16, 64]))
+                b.op(op="READ", fmt="uvl", path=path, pathstyle="abs")
+    b.plan["replicas"] = [{"env": {}, "disk_cfg": {"default_encoding": "utf-8"}}]
+    if rng.random() < 0.25:
+        b.plan["replicas"].append({"env_by_segment": [_seg_env(rng) for _ in range(2)],
+                                   "disk_cfg": {"default_encoding": "ascii"}})
+    return b.plan
+
+
+_CORPUS = []
+
+
+def corpus(repo="/repo"):
+    """(relative xml path, stats or None), sorted; small files first in each size class."""
+    if _CORPUS:
+        return _CORPUS
+    base = os.path.join(repo, "resources", "models")
+    found = []
+    for root, dirs, files in os.walk(base):
+        dirs.sort()
+        for name in sorted(files):
+            if name.endswith(".xml"):
+                full = os.path.join(root, name)
+                found.append((os.path.relpath(full, repo), os.path.getsize(full)))
+    for relp, size in found:
+        st = os.path.join(repo, relp[:-4] + ".statistics")
+        stats = None
+        if os.path.exists(st):
+            with open(st, encoding="utf-8", errors="replace") as fh:
+                txt = fh.read()
+
+            def grab(label):
+                m = re.search(re.escape(label) + r":\s*(\d+)", txt)
+                return int(m.group(1)) if m else None
+            stats = {"features": grab("Number of features"),
+                     "mandatory": grab("Mandatory features"),
+                     "optional": grab("Optinal features"), "or": grab("Or-relationships"),
+                     "alternative": grab("Alternative relationships"),
+                     "or_children": grab("Subfeatures in or-relationships"),
+                     "alt_children": grab("Subfeatures in alternative relationships"),
+                     "ctcs": grab("Cross-tree constraints"),
+                     "requires": grab("Requires constraints"),
+                     "excludes": grab("Excludes constraints")}
+            stats = {k: v for k, v in stats.items() if v is not None}
+        _CORPUS.append((relp, size, stats))
+    return _CORPUS
+
+
+PEER_FMT = {
+    "fide": ("fide", "fide", ["names", "tree", "abstract", "ctc_count", "ctc_equiv"]),
+    "fama": ("xml", "plain", ["names", "tree", "ctc_count", "ctc_equiv", "ctc_name"]),
+    "afm": ("afm", "afm", ["names", "tree", "attrs", "ctc_count", "ctc_equiv"]),
+    "glencoe": ("glencoe", "glencoe", ["names", "tree", "ctc_count", "ctc_equiv", "ctc_name"]),
+}
+
+
+def plan_third_party(seed, tier):
+    """C09: documents of independent emitters (FeatureIDE, FaMa, AFM, Glencoe) and the shipped
+    corpus, delivered through the faulty disk; strict prefixes of XML / JSON must be rejected."""
+    b = Builder(seed, "third-party", tier)
+    rng = b.rng
+    buggify = rng.random() < 0.6
+    faulty = rng.random() < 0.5
+    b.plan["faulty"] = faulty
+    kinds = rng.sample(sorted(PEER_FMT), rng.randint(1, 4))
+    files = corpus()
+    limit = 400000 if tier == "quick" else 10 ** 9
+    small = [c for c in files if c[1] <= limit]
+    for _s in range(rng.choice([1, 1, 2])):
+        b.segment(env=_seg_env(rng), disk_cfg=b.disk_cfg(buggify), cwd=rng.choice(DIRS))
+        for _d in range(rng.randint(3, 9 if tier == "quick" else 20)):
+            if rng.random() < (0.12 if tier == "quick" else 0.3):
+                relp, _size, stats = rng.choice(small)
+                path = b.path("xml")
+                exp = {"kind": "stats", "stats": stats} if stats else {"kind": "any"}
+                b.op(op="PUT", path=path, fmt="xml", src=relp, prop="C09", expect=exp,
+                     tags=["peer.corpus"])
+                b.op(op="READ", fmt="xml", path=path, pathstyle="abs")
+                continue
+            kind = rng.choice(kinds)
+            fmt, frag, facets = PEER_FMT[kind]
+            pool = gen.name_pool(rng, frag if frag != "plain" else "fide", rng.randint(5, 12))
+            cfg = gen.default_cfg(rng, frag, tier)
+            if kind == "fama":
+                cfg["group_kinds"] = ["alternative", "or"]
+            ref = gen.gen_model(rng, frag, pool, cfg)
+            if kind == "fama":
+                _fama_cards(ref, rng)
+                nms = rm.names(ref)
+                ref["ctcs"] = [{"n": "R-c%d" % j, "e": [rng.choice(["REQUIRES", "EXCLUDES"]),
+                                                       ["f", rng.choice(nms)],
+                                                       ["f", rng.choice(nms)]]}
+                               for j in range(rng.randint(0, 4))]
+            emit = {"fide": peers.emit_fide, "fama": peers.emit_fama, "afm": peers.emit_afm,
+                    "glencoe": peers.emit_glencoe}[kind]
+            text, info = emit(ref, rng)
+            path = b.path(fmt)
+            tags = ["peer." + kind] + ["surface." + c for c in info["choices"]]
+            k = rng.random()
+            if k < 0.65:
+                b.op(op="PUT", path=path, fmt=fmt, b64=_b64(text), prop="C09", tags=tags,
+                     expect={"kind": "model", "ref": rm.project(fmt, ref), "facets": facets})
+                rop = {"op": "READ", "fmt": fmt, "path": path,
+                       "pathstyle": rng.choice(["abs", "rel"])}
+                if faulty and rng.random() < 0.15:
+                    rop["fault"] = b.read_fault()
+                b.op(**rop)
+            elif k < 0.85 and fmt in ("fide", "xml", "glencoe"):
+                data = text.encode("utf-8")
+                body = data.rstrip()
+                cut = rng.randint(0, max(len(body) - 1, 0))
+                b.op(op="PUT", path=path, fmt=fmt, b64=_b64(data[:cut]), prop="C09",
+                     tags=tags + ["invalid.strict_prefix"],
+                     expect={"kind": "raise", "why": "strict_prefix"})
+                b.op(op="READ", fmt=fmt, path=path, pathstyle="abs")
+            else:
+                b.op(op="PUT", path=path, fmt=fmt, b64=_b64(text), prop="C09", tags=tags,
+                     expect={"kind": "any"})
+                b.op(op="CORRUPT", path=path, fmt=fmt, frac=rng.random(),
+                     kind=rng.choice(["bitflip", "subst", "zero_sector", "dup_sector",
+                                      "drop_sector", "truncate"]),
+                     bit=rng.randint(0, 7), byte=rng.choice([0x3c, 0, 0xff, 0x7b, 0x22]),
+                     sector=rng.choice([16, 64]))
+                b.op(op="READ", fmt=fmt, path=path, pathstyle="abs")
+    b.plan["replicas"] = [{"env": {}, "disk_cfg": {"default_encoding": "utf-8"}}]
+    return b.plan
+
+
+def _fama_cards(ref, rng):
+    """FaMa relations carry explicit cardinalities: use some that are none of the named kinds."""
+    for feat in rm.features(ref):
+        for rel in feat["rels"]:
+            n = len(rel["ch"])
+            if n > 1 and rng.random() < 0.25:
+                rel["min"] = rng.randint(0, n)
+                rel["max"] = rng.randint(max(rel["min"], 1), n)
+
+
+SCENARIOS["uvl-peer"] = plan_uvl_peer
+SCENARIOS["third-party"] = plan_third_party
